@@ -3,6 +3,7 @@ package rules
 import (
 	"fmt"
 	"go/ast"
+	"go/token"
 	"go/types"
 	"reflect"
 	"sort"
@@ -661,37 +662,71 @@ func RuleTG(c *Ctx) {
 	})
 }
 
-// requiresNames: fd calls (first thing) a check whose body rejects !HasUnnamedParameter().
+// requiresNames: every success return of fd is reached only after the directive was found
+// to have at least one unnamed parameter - by a test in fd itself or by a helper whose nil
+// returns are all behind that test and whose result fd checks.
 func (c *Ctx) requiresNames(pk *pkgT, fd *ast.FuncDecl) bool {
 	info := pk.TypesInfo
-	ok := false
-	ast.Inspect(fd.Body, func(n ast.Node) bool {
-		call, isCall := n.(*ast.CallExpr)
-		if !isCall {
-			return true
+	hasNames := func(fa cfgx.Fact) bool {
+		call, ok := ast.Unparen(fa.Expr).(*ast.CallExpr)
+		if !ok {
+			return false
 		}
-		g := Callee(info, call)
-		gd := c.P.Decl(g)
-		if gd == nil {
-			return true
+		h := Callee(info, call)
+		if h == nil || !strings.Contains(h.Name(), "UnnamedParameter") {
+			return false
 		}
-		ast.Inspect(gd.Body, func(x ast.Node) bool {
-			ifs, isIf := x.(*ast.IfStmt)
-			if !isIf {
+		if b, isB := h.Type().(*types.Signature).Results().At(0).Type().Underlying().(*types.Basic); !isB || b.Kind() != types.Bool {
+			return false
+		}
+		return fa.Truth
+	}
+	successReturnsBehind := func(gd *ast.FuncDecl, gen func(cfgx.Fact) bool) bool {
+		gpk := c.P.PkgOfDecl(gd)
+		if gpk == nil {
+			return false
+		}
+		cf := c.CFG(gpk, gd.Body)
+		n, ok := 0, true
+		inspectNoLit(gd.Body, func(x ast.Node) bool {
+			ret, isRet := x.(*ast.ReturnStmt)
+			if !isRet || len(ret.Results) == 0 {
 				return true
 			}
-			if u, isNot := ast.Unparen(ifs.Cond).(*ast.UnaryExpr); isNot {
-				if c2, isCall2 := ast.Unparen(u.X).(*ast.CallExpr); isCall2 {
-					if h := Callee(info, c2); h != nil && strings.Contains(h.Name(), "UnnamedParameter") && endsWithErrorReturn(info, ifs.Body) {
-						ok = true
-					}
-				}
+			if tv, has := gpk.TypesInfo.Types[ret.Results[len(ret.Results)-1]]; !has || !tv.IsNil() {
+				return true
+			}
+			n++
+			if !cf.MustAt(ret, gen, nil, nil) {
+				ok = false
 			}
 			return true
 		})
-		return true
-	})
-	return ok
+		return ok && n > 0
+	}
+	cf := c.CFG(pk, fd.Body)
+	gen := func(fa cfgx.Fact) bool {
+		if hasNames(fa) {
+			return true
+		}
+		// helper(d) returned nil
+		be, ok := ast.Unparen(fa.Expr).(*ast.BinaryExpr)
+		if !ok || !((be.Op == token.NEQ && !fa.Truth) || (be.Op == token.EQL && fa.Truth)) {
+			return false
+		}
+		x := be.X
+		if isNilIdentExpr(info, x) {
+			x = be.Y
+		}
+		call, ok := ast.Unparen(cf.Resolve(x)).(*ast.CallExpr)
+		if !ok {
+			return false
+		}
+		g := Callee(info, call)
+		gd := c.P.Decl(g)
+		return gd != nil && gd != fd && successReturnsBehind(gd, hasNames)
+	}
+	return successReturnsBehind(fd, gen)
 }
 
 // RuleTP1: precedence of the three tag sources.
